@@ -447,7 +447,7 @@ func Run(ctx *common.Ctx) {
 	}
 	operandsUnchanged(ctx)
 	ctx.Meta.DistinctNontrivial = len(distinct)
-	ctx.Meta.Rule = "operator from {+ - * / floor ceiling truncate round mod rem abs 1+ 1- gcd lcm < <= > >= = logand logior logxor lognot max min} and isqrt (every grid value, k-bit perfect squares and their neighbours for 13 sizes k up to 200 bits, as literals and as bignum objects holding small values) x 1..3 operands (1..4 for max min) (0..4 for logand logior logxor, 60% of them drawn from a mix of small fixnums of both signs, random 64-bit fixnums, the grid, +-2^k+-j for k in 64..133, and the general integers, each position independently, so negative fixnums occur before and after the first bignum) plus, for every two-operand operator, ALL pairs of the boundary values {0,+-1,+-2,3,2^32,+-2^62,2^63-1,-2^63,2^63,-2^63-1,2^64} (thorough: of the whole grid) and for / floor ceiling truncate round mod rem gcd lcm ALL pairs from -7..7 x -4..4; plus, for every comparison operator and for max and min, every ratio of a spread of 28 positive and negative ratios (bignum numerators included; thorough: 60 random ones more) with each of the integers floor-1, floor, ceiling, ceiling+1 in both orders, as a pair and at both positions of a three-operand chain; plus 300 (thorough 3000) incf/incf/decf sequences on integer places and deltas and as many (ash fixnum shift) calls with shift in -70..70, both checked against math/big directly; plus the operands-unchanged sweep: every integer / rational function of slip out of a list of 70 names (those not defined are skipped) x ALL tuples (one operand, and all pairs) of 14 operand kinds (bignums of both signs, perfect-square bignum, bignum objects holding 0 1 5 -3, ratios of both signs with small and bignum parts, fixnums) bound to variables that are re-read after the call (small second operands for expt / ash / the bit-index functions), representation and value compared with before; operands drawn from the boundary grid {0,+-1,+-2,+-3,+-7,+-10,+-2^e,+-(2^e-1),+-(2^e+1) for e in 31,32,62,63,64} (40%), small integers, random 64-bit and random <=200-bit integers, ratios of those (30% for operators that take them), bignum objects holding small values, and in 55% of the cases operands derived from the first one (equal, negated, +-1, small multiples and exact quotients, multiple plus small remainder, exact half-way points, the integers around a ratio, +1/2); distinct = distinct (operator, operand representations) tuples, all non-trivial"
+	ctx.Meta.Rule = "operator from {+ - * / floor ceiling truncate round mod rem abs 1+ 1- gcd lcm < <= > >= = logand logior logxor lognot max min} and isqrt (every grid value, k-bit perfect squares and their neighbours for 13 sizes k up to 200 bits, as literals and as bignum objects holding small values) x 1..3 operands (1..4 for max min) (0..4 for logand logior logxor, 60% of them drawn from a mix of small fixnums of both signs, random 64-bit fixnums, the grid, +-2^k+-j for k in 64..133, and the general integers, each position independently, so negative fixnums occur before and after the first bignum) plus, for every two-operand operator, ALL pairs of the boundary values {0,+-1,+-2,3,2^32,+-2^62,2^63-1,-2^63,2^63,-2^63-1,2^64} (thorough: of the whole grid) and for / floor ceiling truncate round mod rem gcd lcm ALL pairs from -7..7 x -4..4; plus, for every comparison operator and for max and min, every ratio of a spread of 28 positive and negative ratios (bignum numerators included; thorough: 60 random ones more) with each of the integers floor-1, floor, ceiling, ceiling+1 in both orders, as a pair and at both positions of a three-operand chain; plus 300 (thorough 3000) incf/incf/decf sequences on integer places and deltas and as many (ash fixnum shift) calls with shift in -70..70, both checked against math/big directly; plus the operands-unchanged sweep: every integer / rational function of slip out of about 110 call forms (those not defined are skipped) x ALL tuples (one operand, and all pairs) of 15 operand kinds (bignums of both signs, perfect-square bignum, bignum objects holding 0 1 5 -3, ratios of both signs with small and bignum parts, the fixnums 6 and most-negative-fixnum) bound to variables that are re-read after the call (small second operands for expt / ash / the bit-index functions), representation and value compared with before; operands drawn from the boundary grid {0,+-1,+-2,+-3,+-7,+-10,+-2^e,+-(2^e-1),+-(2^e+1) for e in 31,32,62,63,64} (40%), small integers, random 64-bit and random <=200-bit integers, ratios of those (30% for operators that take them), bignum objects holding small values, and in 55% of the cases operands derived from the first one (equal, negated, +-1, small multiples and exact quotients, multiple plus small remainder, exact half-way points, the integers around a ratio, +1/2); distinct = distinct (operator, operand representations) tuples, all non-trivial"
 	header := "From C05 Require Import Model Spec Corr.\nOpen Scope Z_scope.\n"
 	footer := "Definition res := Eval vm_compute in check_all cases.\nPrint res.\nDefinition gcount := Eval vm_compute in guard_count cases.\nPrint gcount.\nDefinition vcount := Eval vm_compute in value_guard_count cases.\nPrint vcount.\n"
 	ctx.WriteShards("cases", header, "case", footer, terms, descs, 16)
